@@ -351,8 +351,8 @@ register(Prop('C18', 'seqinfo reports the library parse', None, None, special=sp
               rule='invocations of the built seqinfo binary: 1..64 patterns incl. duplicates/malformed, args vs stdin, option subsets, each run twice'))
 
 register(Prop('C17', 'seqls lists every selected file exactly once', None, None, special=special.c17_special,
-              partial='the Go scheduler, channels and fastwalk worker pool are not modelled: the pipeline is proved as a transition system, the binary is observed',
-              rule='generated trees (depth <= 4, hidden dirs/files, empty dirs, directory links; aliased/cyclic links for termination only) x flag subsets x mixed arguments x GOMAXPROCS 1/2/16 x workers 1/2/50, each run twice'))
+              partial='the Go scheduler and channel semantics enter as modelled (buffered FIFO channels, select = any enabled case, atomic cache lookup-and-insert): the worker pipeline, the fastwalk coordinator (translated from the source) and the walk under any schedule are proved as transition systems; the binary is observed on generated trees',
+              rule='generated trees in 7 modes (plain, narrow spines x12 repetitions, leaf links, nested links, aliased/cyclic links for termination only, chains of relative links through a second tree) with hidden dirs/files and empty dirs x flag subsets x mixed arguments x GOMAXPROCS x workers 1/2/50, each run at least twice; every schedule of the translated fastwalk coordinator on small trees'))
 
 register(Prop('C19', 'the C++ port computes the same results', None, None, special=special.c19_special, level='translation_validation',
               partial='no for-all statement about the C++ code: the port is compared, on generated inputs of the shared domain, with the Go library AND with the extracted Coq model whose theorems (C01-C04, C08-C11) then describe the port on those inputs',
